@@ -1079,6 +1079,17 @@ def sweep_inputs(name: str):
         for code in range(256):
             for n in range(0, 17):
                 yield w.OPEN, w.encode_open(65002, 180, '9.9.9.9', [w.cap_mp(1, 1), (code, bytes(range(1, n + 1)))])
+    elif name in ('next-hop-length', 'next-hop-length-extnh'):
+        # every family of the session x every next-hop length 0..49 (RFC 4760 3, RFC 8950 3: 4, 16, 32, 12, 24, 48 and
+        # whatever else a family table lists), under the session without and the one with Extended Next Hop negotiated
+        mini = {(1, 132): bytes([96]) + bytes(range(1, 13)), (2, 1): bytes([32, 0x20, 0x01, 0x0d, 0xb8]), (2, 2): bytes([32, 0x20, 0x01, 0x0d, 0xb8]),
+                (1, 1): bytes([24, 10, 0, 1]), (1, 2): bytes([24, 10, 0, 1]), (1, 4): bytes([48, 0, 1, 1, 10, 0, 1]), (2, 4): bytes([56, 0, 1, 1, 0x20, 0x01, 0x0d, 0xb8]),
+                (1, 128): bytes([112, 0, 1, 1]) + bytes(8) + bytes([10, 0, 1]), (2, 128): bytes([120, 0, 1, 1]) + bytes(8) + bytes([0x20, 0x01, 0x0d, 0xb8])}
+        for afi, safi in ALL_FAMILIES:
+            for n in range(0, 50):
+                for f in _fills(n):
+                    for nl in (b'', b'\x00') + ((mini[(afi, safi)],) if (afi, safi) in mini else ()):
+                        yield w.UPDATE, _upd([_mp(afi, safi, f, nl)])
     elif name == 'operational-type':
         for what in list(range(0, 32)) + [0xFFFE, 0xFFFF]:
             for n in range(0, 25):
@@ -1088,7 +1099,9 @@ def sweep_inputs(name: str):
 
 
 SWEEPS = ['attribute-code', 'extended-community', 'ipv6-extended-community', 'bgp-ls-attribute', 'prefix-sid', 'tunnel-encapsulation', 'route-type', 'nlri-length',
-          'flowspec-component', 'bgp-ls-nlri', 'capability-code', 'operational-type']
+          'flowspec-component', 'bgp-ls-nlri', 'capability-code', 'operational-type', 'next-hop-length', 'next-hop-length-extnh']
+# the session a sweep runs under (default: the plain one)
+SWEEP_SESSION = {'next-hop-length-extnh': 0}
 SWEEP_SHARDS = {'extended-community': 8, 'bgp-ls-attribute': 6, 'prefix-sid': 6, 'route-type': 6, 'attribute-code': 6, 'flowspec-component': 6, 'tunnel-encapsulation': 4, 'nlri-length': 3, 'bgp-ls-nlri': 3}
 
 # ------------------------------------------------------------------------------------------------
@@ -1208,7 +1221,7 @@ def worker(job):
                 _one(res, S, mtype, bytes([b0, b1]), False, 'small')
     elif kind == 'sweep':
         _, name, shard, nshards = job
-        S = session(PLAIN_SESSION)
+        S = session(SWEEP_SESSION.get(name, PLAIN_SESSION))
         clear_attribute_cache()
         for k, (mtype, b) in enumerate(sweep_inputs(name)):
             if k % nshards != shard:
